@@ -327,11 +327,12 @@ class C13(Check):
             N = rng.randint(2, 6)
             labs = rng.sample(range(1000), N)
             wl.append(" ".join(["wm%d" % k, "wmem", str(N), str(K), "2", hexf(-rng.random() * 50)] + [str(x) for x in labs] +
-                               gen.flist([rng.random() for _ in range(N * K)])))
+                               gen.flist([rng.choice([rng.random(), rng.random(), 0.0, rng.random() * 1e-6, 6.67e-7, 1e-6, 1e-9]) for _ in range(N * K)])))
             nr = rng.randint(1, 4)
             wl.append(" ".join(["wi%d" % k, "winfo", str(nr), str(rng.choice([0, 7, 5489, 2 ** 31 - 1])), str(nr)] +
                                [x for i in range(nr) for x in (str(rng.randint(1, 500)), rng.choice(["MAX_ITER", "CONVERGED"]),
-                                                              hexf(-rng.random() * 10 ** rng.randint(0, 5)))]))
+                                                              hexf(-rng.random() * 10 ** rng.randint(0, 5)))] +
+                               [hexf(rng.choice([0.0, 1e-4, 2.5, 59.99, 3599.9, 3600.0, 7384.2, 86400.0, 1.5e6]))]))
         self.correspond("writers", wl, rtol=1e-5)
         self.cov["rule"] = ("random command lines: all 8 flag combinations of --undirected/--assortative/--w, K 2-4, --r/--maxit/--y/--s/--o present or absent in shuffled order, "
                             "adjacency files rendered in random layouts of the grammar (indentation, tabs, trailing blanks, blank-only lines, CRLF, final newline or not, sparse labels); "
@@ -552,6 +553,9 @@ class C14(Check):
                 for assort in (False, True):
                     for _ in range(reps):
                         diag = [[round(rng.random() * rng.choice([1, 1, 10]), 5) for _ in range(K)] for _ in range(L)]
+                        if rng.random() < 0.12:
+                            # a file of zeros is a file: every realization starts from noise alone, on and off the diagonal
+                            diag = [[0.0] * K for _ in range(L)]
                         text = render_affinity(rng, diag, K, L)
                         size = (K if assort else K * K) * L
                         cid = "a%d" % n
@@ -973,7 +977,7 @@ class C19(Check):
         work = os.path.join(self.bdir, "scratch", "p%d_" % os.getpid() + "cli19")
         for directed in (True, False):
             for assort in (True, False):
-                for wname, wtext in ((None, None), ("", None), ("w.dat", "0 0.3 0.4\n1 0.5 0.6\n")):
+                for wname, wtext in ((None, None), ("", None), ("w.dat", "0 0.3 0.4\n1 0.5 0.6\n"), ("w0.dat", "0 0 0\n1 0 0\n")):
                     argv = ["--a", "adj.dat", "--k", "2", "--maxit", "1", "--s", "3"]
                     if wname is not None:
                         argv = ["--w", wname] + argv
@@ -983,7 +987,7 @@ class C19(Check):
                         argv.insert(0, "--assortative")
                     files = {"adj.dat": adj}
                     if wtext:
-                        files["w.dat"] = wtext
+                        files[wname] = wtext
                     r = run_cli(self.bdir, argv, files, work)
                     self.cov["evaluations"] += 1
                     call = parse_trace_call(r.trace)
